@@ -44,6 +44,11 @@ type c04Worker struct {
 // the refuting witness index), -1 undetermined (no witness of Q is farther than
 // 2 units from the edges of both).
 func c04Contains(g *oracle.Grid, O, Q *c04Node) (int, int) {
+	if abs64(Q.area2) > abs64(O.area2) {
+		// exact: a polygon does not lie inside one of smaller area (a ring narrower than the 2-unit margin
+		// has no refuting witness)
+		return 0, -1
+	}
 	found := false
 	for k := range Q.in {
 		if !Q.in[k] || Q.on[k] || O.on[k] {
@@ -119,6 +124,9 @@ func c04CheckTree(c *drv.Ctx, w *c04Worker, tag string, S, C Paths, tree *clippe
 		}
 	}
 	pt := func(k int) string {
+		if k < 0 {
+			return "(none: the node's area exceeds the other polygon's)"
+		}
 		return fmt.Sprintf("(%g,%g)", float64(g.WX(k%g.NX))/float64(g.S), float64(g.WY(k/g.NX))/float64(g.S))
 	}
 	for i := range nodes {
@@ -252,13 +260,68 @@ func spNest(e enum.Embed, k int, bothOrient bool, level int) *BoolSpace {
 		}}
 }
 
+// spBars: a fixed menu of 17 axis-aligned pieces - three horizontal bars, six vertical bar segments that only
+// TOUCH the bars (so a ring and its hole exist only once touching horizontal edges have been joined), an island in
+// each of the four cells of that grid and a reversed square inside each island - and every assignment of
+// {absent, subject[, clip]} to the pieces. Level counts the deepest possible nesting (outer, hole, island, hole).
+var barsMenu = func() []Path {
+	rect := func(x0, y0, x1, y1 int64, rev bool) Path {
+		p := Path{{X: x0, Y: y0}, {X: x1, Y: y0}, {X: x1, Y: y1}, {X: x0, Y: y1}}
+		if rev {
+			p[1], p[3] = p[3], p[1]
+		}
+		return p
+	}
+	var m []Path
+	for _, y := range []int64{0, 30, 60} {
+		m = append(m, rect(0, y, 70, y+10, false))
+	}
+	for _, x := range []int64{0, 30, 60} {
+		m = append(m, rect(x, 10, x+10, 30, false), rect(x, 40, x+10, 60, false))
+	}
+	for _, cy := range []int64{10, 40} {
+		for _, cx := range []int64{10, 40} {
+			m = append(m, rect(cx+4, cy+4, cx+16, cy+16, false))
+		}
+	}
+	// inner squares: the two diagonal cells first, so that the first 15 pieces already nest four deep
+	for _, c := range [][2]int64{{10, 10}, {40, 40}, {40, 10}, {10, 40}} {
+		m = append(m, rect(c[0]+7, c[1]+7, c[0]+13, c[1]+13, true))
+	}
+	return m
+}()
+
+func spBars(items int, withClip bool, level int) *BoolSpace {
+	base := uint64(2)
+	if withClip {
+		base = 3
+	}
+	return &BoolSpace{Name: fmt.Sprintf("N/bars: every assignment of %d choices to the first %d of 17 touching bars, islands and reversed inner squares", base, items), Level: level, Size: enum.Pow(base, items), E: enum.Eunit,
+		Gen: func(idx uint64, g *genBuf) (Paths, Paths) {
+			g.reset()
+			for i := 0; i < items; i++ {
+				switch idx % base {
+				case 1:
+					g.s = append(g.s, barsMenu[i])
+				case 2:
+					g.c = append(g.c, barsMenu[i])
+				}
+				idx /= base
+			}
+			if withClip && len(g.c) == 0 {
+				return g.s, nil
+			}
+			return g.s, g.c
+		}}
+}
+
 func init() {
 	all := allClipTypes
 	nestOps := []clipper.ClipType{clipper.Union, clipper.Xor, clipper.Difference}
 	drv.Register(&drv.Check{
 		ID:    "C04",
 		Title: "PolyTree results are the same polygons, correctly nested",
-		Rule: "closed boolean scopes (single paths, pairs, two subjects, rectangle pairs) and a nesting family (frame + three lattice rectangles, both orientations, touching and shared-edge cases) x clip types x 4 fill rules through BooleanOpPolyTree64 and, on every 16th input, BooleanOpPolyTreeD; " +
+		Rule: "closed boolean scopes (single paths, pairs, two subjects, rectangle pairs) a nesting family (frame + three lattice rectangles, both orientations, touching and shared-edge cases) and a bars family (every subset of 17 pieces: bars that only touch along horizontal edges, so rings and holes arise from horizontal joins, islands inside the cells, reversed squares inside the islands) x clip types x 4 fill rules through BooleanOpPolyTree64 and, on every 16th input, BooleanOpPolyTreeD; " +
 			"oracle: multiset of node polygons (rotation-canonical) = flat result of a fresh engine; IsHole() <=> exact negative area; parent and child differ in hole-ness; on the exact witness lattice: every child inside its parent, no two siblings overlap, every node that contains another is one of its ancestors, and no ancestor is smaller than the parent (containment undetermined when no witness is > 2 units from both boundaries -> not reported). non-trivial = input whose tree has two or more nodes",
 		Assumptions:      []string{"small-scope hypothesis as in C01; ownership errors between polygons that nowhere differ by more than the band are not visible"},
 		RequiredCounters: []string{"inputs_with_a_tree_of_two_or_more_nodes"},
@@ -267,14 +330,14 @@ func init() {
 			if tier == "quick" {
 				out = append(out, c04Scope(spSingle(enum.Eax, 3, 4, 2), all), c04Scope(spSingle(enum.Eax, 3, 5, 3), all), c04Scope(spSingle(enum.Esh, 3, 5, 3), all))
 				out = append(out, c04Scope(spPair("B2", enum.Eax, 3, 3, 3, 4), all), c04Scope(spTwo(enum.Esh, 3, 3, 4), all))
-				out = append(out, c04Scope(spRects(enum.Eax, 4, 5), all), c04Scope(spNest(enum.Eax, 4, false, 5), nestOps), c04Scope(spThree(enum.Eax, 13, 5), all))
+				out = append(out, c04Scope(spRects(enum.Eax, 4, 5), all), c04Scope(spNest(enum.Eax, 4, false, 5), nestOps), c04Scope(spThree(enum.Eax, 13, 5), all), c04Scope(spBars(15, false, 6), nestOps))
 				return out
 			}
 			for _, e := range []enum.Embed{enum.Eax, enum.Esh, enum.Ean} {
 				out = append(out, c04Scope(spSingle(e, 3, 4, 2), all), c04Scope(spSingle(e, 3, 5, 3), all), c04Scope(spSingle(e, 3, 6, 4), all))
 				out = append(out, c04Scope(spPair("B2", e, 3, 3, 3, 4), all), c04Scope(spTwo(e, 3, 3, 4), all))
 			}
-			out = append(out, c04Scope(spRects(enum.Eax, 4, 5), all), c04Scope(spNest(enum.Eax, 4, true, 5), nestOps), c04Scope(spNest(enum.Eax, 5, false, 6), nestOps), c04Scope(spShapes(enum.Eax, 5, 6), nestOps))
+			out = append(out, c04Scope(spRects(enum.Eax, 4, 5), all), c04Scope(spNest(enum.Eax, 4, true, 5), nestOps), c04Scope(spNest(enum.Eax, 5, false, 6), nestOps), c04Scope(spShapes(enum.Eax, 5, 6), nestOps), c04Scope(spBars(17, false, 6), nestOps), c04Scope(spBars(13, true, 6), nestOps))
 			return out
 		},
 	})
